@@ -229,6 +229,18 @@ pub fn exercise(buf: &[u8], t: &mut TrackerCtx) -> (Sigs, bool) {
     op("debug", &mut || {
         let _ = format!("{frame:?}");
     });
+    // the by-reader twin of the decoder, handed a reader that stands inside a longer stream
+    // (the second frame of a capture), one frame in four
+    if buf.len() > 2 && buf[buf.len() - 1] % 4 == 0 {
+        let off = 2 + (buf[1] as usize % 13);
+        let mut stream = vec![0x8du8; off];
+        stream.extend_from_slice(buf);
+        op("from_reader", &mut || {
+            let mut cur = std::io::Cursor::new(&stream[..]);
+            cur.set_position(off as u64);
+            let _ = Frame::from_reader(&mut cur);
+        });
+    }
     let (b1, c1) = alloc_snapshot();
     op("calculate", &mut || {
         let me = match &frame.df {
